@@ -66,10 +66,10 @@ abbrev FrameRow := String × List String × List String
 
 variable {α : Type}
 
-/-- whatever the reader returns is in the domain of the round-trip law, and the writer accepts it provided the lengths
-the writer derives (`L`: length fields of re-encoded blocks) fit -/
+/-- the same under a side condition `L` on the decoded value: a length the writer derives (the length field of a
+re-encoded block) fits its field, or the value avoids a shape the format cannot tell apart (a `…_partial` theorem) -/
 def DecOKIf (c : PCodec α) (L : α → Prop) : Prop :=
-  ∀ (d : B) (p : Nat) (v : α) (p' : Nat), c.dec d p = .ok (v, p') → c.WF v ∧ (L v → c.Fits v)
+  ∀ (d : B) (p : Nat) (v : α) (p' : Nat), c.dec d p = .ok (v, p') → L v → c.WF v ∧ c.Fits v
 
 /-- whatever the reader returns, the writer accepts (`dec_returns_encodable`) and C01's round trip applies to it -/
 def DecOK (c : PCodec α) : Prop :=
